@@ -48,6 +48,7 @@ def plans(tier):
 
 def run(ctx):
     opseq.run_bfs_check(ctx, TAGS, plans(ctx.tier))
+    opseq.run_explicit(ctx, TAGS, opseq.long_histories())
     ctx.cov["explanation"] = (
         "BFS over histories of completed writing sessions on real dataset "
         "directories (state = canonicalised metadata tree); after the last "
